@@ -599,8 +599,9 @@ func runC02(c *Ctx) {
 			if single {
 				bk = []string{drv.SingleName, "other-bucket"}
 			}
-			// (also a key whose first segment is spelt like its bucket)
-			keys := []string{"k", "d/x", "d/y", "d/e/z", bk[0] + "/in"}
+			// (also a key whose first segment is spelt like its bucket, a key that only begins like a name a backend keeps for itself)
+			// (the last one only begins like a name a backend keeps for itself: an ordinary key)
+			keys := []string{"k", "d/x", "d/y", "d/e/z", bk[0] + "/in", []string{".gofakes3-uploads.bak", ".gofakes3-uploads-2019/report", "metadata.bak/k", "uploadsx", "_meta2", "bucketx/k"}[idx%6]}
 			ghosts := []string{"k/below", "d/x/below/deeper", "d", "d/e", "kk", "d/xx", "d/e/z/z", "d/x/one", "d/y/one", "k/one",
 				// names no file system entry can have: a segment of 300 bytes, and a 230-byte key whose
 				// flattened metadata name is too long; never written, so reads say NoSuchKey and deletes succeed
